@@ -37,6 +37,10 @@ def main():
         return ctx.finish()
     except Machinery as e:
         print(f"[{pid}] MACHINERY FAILURE: {e}")
+        if ctx.violations:
+            # violations registered before the machinery failed are real verdicts: report them
+            ctx.assumptions.append(f"run ended early with a machinery failure: {e}"[:300])
+            return ctx.finish()
         return 2
     except Exception:
         traceback.print_exc()
